@@ -467,6 +467,7 @@ pub fn scenario_probes(sc: &Scenario, stats: &mut crate::core::Stats) {
     stats.probe("with_validation", sc.val.is_some());
     stats.probe("print_some", sc.print.is_some());
     stats.probe("batch_ge_17", sc.batch >= 17 && n >= 17);
+    stats.probe("scale_stratum", n >= 100 || sc.epochs >= 8 || sizes.iter().any(|s| *s >= 300));
     stats.probe("dropout_configured", sc.net.has_dropout());
     let mut fb3 = false;
     let mut kinds = [false; 5];
